@@ -131,6 +131,12 @@ def simulation(args_dict):
                 remove_empty=data.get('remove_empty', False),
             )
 
+        # The gridding option `cell_number` of the CLI corresponds to the
+        # parameter `cell_numbers` of the gridding routines.
+        gopts = cfg['simulation_options'].get('gridding_opts', {})
+        if 'cell_number' in gopts:
+            gopts['cell_numbers'] = [int(n) for n in gopts.pop('cell_number')]
+
         # Switch-off tqdm if verbosity is zero.
         if verb < 1:
             cfg['simulation_options']['tqdm_opts'] = False
